@@ -101,8 +101,9 @@ def index_mesh(rng, tris_pts, G):
     return nv, tris
 
 
-def layout(rng, want_normal, want_uv):
-    sems = ['VERTEX'] + (['NORMAL'] if want_normal else []) + (['TEXCOORD'] if want_uv else [])
+def layout(rng, want_normal, want_uv, stale=False):
+    sems = ['VERTEX'] + (['NORMAL'] if want_normal else []) + (['TEXCOORD'] if want_uv else []) + \
+        (['TEXTANGENT', 'TEXBINORMAL'] if stale else [])
     nind = len(sems) + rng.choice([0, 0, 1])
     offs = rng.sample(range(nind), len(sems))
     if rng.random() < 0.3:
@@ -194,12 +195,18 @@ def doc_xml(case):
         parts.append(source_xml('nsrc', case['fnormals'], 'XYZ'))
     if inputs.get('TEXCOORD') is not None:
         parts.append(source_xml('tsrc', case['fuvs'], 'ST'))
+    if inputs.get('TEXTANGENT') is not None:
+        parts.append(source_xml('tansrc', case['fstale'], 'XYZ'))
+        parts.append(source_xml('binsrc', case['fstale'], 'XYZ'))
     parts.append('<vertices id="vtx"><input semantic="POSITION" source="#vsrc"/></vertices>')
     inp = ['<input semantic="VERTEX" source="#vtx" offset="%d"/>' % inputs['VERTEX']]
     if inputs.get('NORMAL') is not None:
         inp.append('<input semantic="NORMAL" source="#nsrc" offset="%d"/>' % inputs['NORMAL'])
     if inputs.get('TEXCOORD') is not None:
         inp.append('<input semantic="TEXCOORD" source="#tsrc" offset="%d" set="0"/>' % inputs['TEXCOORD'])
+    if inputs.get('TEXTANGENT') is not None:
+        inp.append('<input semantic="TEXTANGENT" source="#tansrc" offset="%d" set="0"/>' % inputs['TEXTANGENT'])
+        inp.append('<input semantic="TEXBINORMAL" source="#binsrc" offset="%d" set="0"/>' % inputs['TEXBINORMAL'])
     order = list(range(len(inp)))
     if case.get('input_order'):
         order = case['input_order']
@@ -226,6 +233,9 @@ def finish_case(rng, case):
         cols[case['inputs']['NORMAL']] = case['ntris']
     if case['inputs'].get('TEXCOORD') is not None:
         cols[case['inputs']['TEXCOORD']] = case['uvtris']
+    if case['inputs'].get('TEXTANGENT') is not None:
+        cols[case['inputs']['TEXTANGENT']] = case['staletris']
+        cols[case['inputs']['TEXBINORMAL']] = case['staletris']
     case['index'] = flat_index(case['nind'], cols, ntri)
     if case['mode'] in ('xml', 'bound-xml'):
         n = len(case['inputs'])
@@ -267,6 +277,13 @@ def gen_lattice_normals(rng):
     return finish_case(rng, case)
 
 
+
+def add_stale(rng, case, tris):
+    """the set already carries TEXTANGENT / TEXBINORMAL inputs (to be replaced by the generated ones)"""
+    case['fstale'] = [[1.0, 0.0, 0.0], [0.0, 1.0, 0.0], [0.6, 0.0, 0.8]]
+    case['staletris'] = [[rng.randrange(3) for _ in range(3)] for _ in tris]
+
+
 def uv_det(uvs, u):
     a, b, c = uvs[u[0]], uvs[u[1]], uvs[u[2]]
     return (b[0] - a[0]) * (c[1] - b[1]) - (c[0] - b[0]) * (b[1] - a[1])
@@ -299,12 +316,15 @@ def gen_lattice_tangents(rng):
         sg = tuple((x > 0) - (x < 0) for x in cr)
         true_axis = AXIS_UNITS.index(sg)
         ntris.append([true_axis if rng.random() < 0.6 else rng.randrange(6) for _ in range(3)])
-    inputs, nind = layout(rng, True, True)
-    case = {'kind': 'tangents', 'lattice': True, 'mode': rng.choice(['api', 'xml']), 'vden': vden, 'verts': verts, 'scale_exp': e,
+    stale = rng.random() < 0.35
+    inputs, nind = layout(rng, True, True, stale)
+    case = {'kind': 'tangents', 'lattice': True, 'tan_seq': rng.choice([['tan'], ['tan'], ['tan', 'tan']]), 'mode': rng.choice(['api', 'xml']), 'vden': vden, 'verts': verts, 'scale_exp': e,
             'fverts': [[x / vden for x in p] for p in verts], 'tris': tris, 'inputs': inputs, 'nind': nind,
             'uvden': uvden, 'uvs': uvs, 'fuvs': [[x / uvden for x in p] for p in uvs], 'uvtris': uvtris,
             'normals': [list(a) for a in AXIS_UNITS], 'fnormals': [[float(x) for x in a] for a in AXIS_UNITS],
             'ntris': ntris}
+    if stale:
+        add_stale(rng, case, tris)
     return finish_case(rng, case)
 
 
@@ -369,8 +389,17 @@ def gen_float_case(rng, kind):
     else:
         case['mode'] = rng.choice(['api', 'xml'])
         own = rng.random() < 0.5
-        case['gen_normals_first'] = not own
-        case['inputs'], case['nind'] = layout(rng, own, True)
+        stale = rng.random() < 0.35
+        # operations in order: 'gen' = generateNormals(), 'tan' = generateTexTangentsAndBinormals()
+        if own:
+            case['tan_seq'] = rng.choice([['tan'], ['tan', 'tan'], ['tan', 'gen', 'tan'], ['gen', 'tan'],
+                                          ['tan', 'gen', 'gen', 'tan', 'tan']])
+        else:
+            case['tan_seq'] = rng.choice([['gen', 'tan'], ['gen', 'tan', 'gen', 'tan'], ['gen', 'tan', 'tan'],
+                                          ['gen', 'gen', 'tan']])
+        case['inputs'], case['nind'] = layout(rng, own, True, stale)
+        if stale:
+            add_stale(rng, case, tris)
         if own:
             ns = []
             for _ in range(rng.randint(1, 5)):
@@ -552,7 +581,10 @@ def run(ctx):
         modes[c['mode']] = modes.get(c['mode'], 0) + 1
         k = ('lattice-' if c.get('lattice') else 'float-') + c['kind']
         kinds[k] = kinds.get(k, 0) + 1
-        seqs[c.get('seq')] = seqs.get(c.get('seq'), 0) + 1
+        sq = c.get('seq') or ('+'.join(c['tan_seq']) if c.get('tan_seq') else None)
+        seqs[sq] = seqs.get(sq, 0) + 1
+        if c.get('fstale'):
+            seqs['with existing TEXTANGENT/TEXBINORMAL inputs'] = seqs.get('with existing TEXTANGENT/TEXBINORMAL inputs', 0) + 1
         scales[str(c.get('scale_exp', 0))] = scales.get(str(c.get('scale_exp', 0)), 0) + 1
         if m >= 2:
             seen.add(core.canon_hash([c['fverts'], c['tris'], c['mode'], c.get('uvtris'), c.get('seq'), c.get('mat')]))
